@@ -264,6 +264,11 @@ def _convert(
             output_type=output_chart_type,
             invalid_property_behaviors=invalid_property_behaviors,
         )
+        if isinstance(output_chart, SSCChart) and "NOTES" in output_chart:
+            # A chart template lacking some of the copied fields would
+            # otherwise leave them after its note data, which an SSC
+            # chart keeps last (and writes last)
+            output_chart.move_to_end("NOTES")
         output_simfile.charts.append(output_chart)
 
     return cast(_CONVERT_SIMFILE, output_simfile)
